@@ -53,6 +53,7 @@ ESCAPE = "self.sim_params.continue_if_design_unmet"
 def check(prog: Program, tier: str) -> Result:
     res = Result(PROP)
     lb = 1 if tier == "quick" else 2
+    _primitives(prog, res)
     _bisection1d(prog, res, lb)
     _provenance(prog, res, f"{SR}.Bisection1D.search")
     _provenance(prog, res, f"{SR}.BisectionZD.search_successive")
@@ -62,6 +63,144 @@ def check(prog: Program, tier: str) -> Result:
     _protocol(prog, res)
     _clamp_table(prog, res)
     return res
+
+
+# ---------------------------------------------------------------------------
+def _primitives(prog: Program, res: Result):
+    """R01.6 sign / check_bracket tables; R01.7 calculate_excess and initialize_ghe really evaluate (field, height)"""
+    import itertools
+
+    q = f"{UT}.check_bracket"
+    fi = prog.func(q)
+    res.analysed(q)
+    rets = [r for r in ast.walk(fi.node) if isinstance(r, ast.Return)]
+    ps = fi.params()
+    if len(rets) != 1 or len(ps) != 2:
+        raise AnalysisError(f"{q}: shape not understood")
+
+    def ev(node, env):
+        if isinstance(node, ast.BoolOp):
+            vs = [ev(v, env) for v in node.values]
+            return all(vs) if isinstance(node.op, ast.And) else any(vs)
+        if isinstance(node, ast.UnaryOp) and isinstance(node.op, ast.Not):
+            return not ev(node.operand, env)
+        if isinstance(node, ast.UnaryOp) and isinstance(node.op, ast.USub):
+            return -ev(node.operand, env)
+        if isinstance(node, ast.Compare):
+            left = ev(node.left, env)
+            okc = True
+            for op, r in zip(node.ops, node.comparators):
+                rv = ev(r, env)
+                okc = okc and {ast.Lt: left < rv, ast.LtE: left <= rv, ast.Gt: left > rv, ast.GtE: left >= rv, ast.Eq: left == rv, ast.NotEq: left != rv}[type(op)]
+                left = rv
+            return okc
+        if isinstance(node, ast.Name):
+            return env[node.id]
+        if isinstance(node, ast.Constant):
+            return node.value
+        if isinstance(node, ast.BinOp) and isinstance(node.op, ast.Mult):
+            return ev(node.left, env) * ev(node.right, env)
+        raise AnalysisError(f"{q}: expression not understood: {ast.unparse(node)}")
+
+    bad = []
+    for a, b in itertools.product((-1, 1), repeat=2):
+        got = bool(ev(rets[0].value, {ps[0]: a, ps[1]: b}))
+        if got != (a != b):
+            bad.append((a, b, got))
+    res.ob("R01.6", "check_bracket(s1, s2) is true exactly when the two signs differ (4 valuations)", not bad, prog.loc(fi, rets[0]))
+    for a, b, got in bad:
+        res.violation("R01.6", f"check_bracket|{a}|{b}", prog.loc(fi, rets[0]), q, f"check_bracket({a}, {b}) = {got}: a bracket is {'claimed' if got else 'denied'} although the signs {'agree' if a == b else 'differ'}")
+    q = f"{UT}.sign"
+    fi = prog.func(q)
+    res.analysed(q)
+    eng = Engine(prog, fi, Hooks())
+    st = State()
+    st.env["x"] = Rat.atom("x")
+    f = [x for x in eng.run_function(st) if x.exit and x.exit[0] == "return"]
+    X = Rat.atom("x")
+    want = [sym.call("int", [sym.call("abs", [X]) / X]), sym.call("int", [X / sym.call("abs", [X])])]
+    ok = len(f) == 1 and isinstance(f[0].exit[1], Rat) and any(f[0].exit[1].equals(w) for w in want)
+    res.ob("R01.6", f"sign(x) = int(|x| / x) (got {vkey(f[0].exit[1])[:40] if f else '?'})", ok, prog.loc(fi, fi.node))
+    if not ok:
+        res.violation("R01.6", f"sign|{vkey(f[0].exit[1])[:40] if f else '?'}", prog.loc(fi, fi.node), q, f"sign(x) is {vkey(f[0].exit[1])[:60] if f else '?'} instead of int(abs(x) / x)")
+    # calculate_excess(coordinates, h) = initialize_ghe(coordinates, h) ; simulate ; cost
+    for cls in ("Bisection1D", "RowWiseModifiedBisectionSearch"):
+        q = f"{SR}.{cls}.calculate_excess"
+        fi = prog.func(q)
+        res.analysed(q)
+        class HC(Hooks):
+            def on_call(self, node, fname, args, kwargs, st, eng):
+                if fname == "self.initialize_ghe":
+                    st.emit("INIT", args, node)
+                    return Const(None)
+                if fname == "self.ghe.simulate":
+                    st.emit("SIM", None, node)
+                    return Seq([Rat.atom("MX"), Rat.atom("MN")], "tuple")
+                if fname == "self.ghe.cost":
+                    st.emit("COST", None, node)
+                    return Rat.atom("EXCESS")
+                return None
+
+        engc = Engine(prog, fi, HC())
+        stc = State()
+        for p_ in fi.params():
+            stc.env[p_] = Rat.atom(p_)
+        ps = [p_ for p_ in fi.params() if p_ != "self"]
+        ok = True
+        names = []
+        for fc in engc.run_function(stc):
+            if fc.exit is None or fc.exit[0] != "return":
+                continue
+            names = [e.kind for e in fc.events if e.kind in ("INIT", "SIM", "COST")]
+            init = [e for e in fc.events if e.kind == "INIT"]
+            good = names == ["INIT", "SIM", "COST"] and len(init[0].data) >= 2 and init[0].data[0] == Rat.atom(ps[0]) and init[0].data[1] == Rat.atom(ps[1])
+            if not good:
+                ok = False
+                break
+        res.ob("R01.7", f"{cls}.calculate_excess(field, h): initialises the GHE with exactly (field, h), then simulates, then takes the excess", ok, prog.loc(fi, fi.node))
+        if not ok:
+            res.violation("R01.7", f"{cls}|calculate_excess|{names}", prog.loc(fi, fi.node), q,
+                          f"calculate_excess runs {names} - it must re-initialise the GHE with its own (coordinates, h) before simulating, otherwise the excess belongs to another field or height")
+        q = f"{SR}.{cls}.initialize_ghe"
+        fi = prog.func(q)
+        res.analysed(q)
+
+        class H(Hooks):
+            def on_assign(self, key, val, stmt, st, eng):
+                if key.endswith(".H"):
+                    st.emit("HSET", (key, val), stmt)
+
+            def on_call(self, node, fname, args, kwargs, st, eng):
+                if fname == "calc_g_func_for_multiple_lengths":
+                    gs = prog.func("ghedesigner.gfunction.calc_g_func_for_multiple_lengths")
+                    st.emit("GF", {k: eng.eval(v, st) for k, v in bind_args(gs, node).items()}, node)
+                    return Rat.atom("GFUNC")
+                if fname == "GHE":
+                    gi = prog.func("ghedesigner.ground_heat_exchangers.GHE.__init__")
+                    st.emit("GHE", {k: eng.eval(v, st) for k, v in bind_args(gi, node).items()}, node)
+                    return Rat.atom("GHEOBJ")
+                if fname == "self.retrieve_flow":
+                    return Seq([Rat.atom("VS"), Rat.atom("MF")], "tuple")
+                return None
+
+        eng = Engine(prog, fi, H())
+        st = State()
+        for p in fi.params():
+            st.env[p] = Rat.atom(p)
+        f = [x for x in eng.run_function(st)][0]
+        order = [e.kind for e in f.events if e.kind in ("HSET", "GF", "GHE")]
+        hs = [e for e in f.events if e.kind == "HSET"]
+        gf = [e for e in f.events if e.kind == "GF"]
+        gh = [e for e in f.events if e.kind == "GHE"]
+        ok = order == ["HSET", "GF", "GHE"] and hs[0].data[1] == Rat.atom("h")
+        hv = gf[0].data.get("h_values") if gf else None
+        okh = ok and isinstance(hv, Seq) and len(hv.items) == 1 and isinstance(hv.items[0], Rat) and hv.items[0].key() == hs[0].data[0]
+        okb = okh and vkey(gh[0].data.get("borehole")) + ".H" == hs[0].data[0]
+        res.ob("R01.7", f"{cls}.initialize_ghe: writes the requested height to the borehole, computes the g-function for [that height] and builds the GHE on that borehole", bool(okb), prog.loc(fi, fi.node))
+        if not okb:
+            res.violation("R01.7", f"{cls}|initialize_ghe|{order}", prog.loc(fi, fi.node), q,
+                          f"initialize_ghe does {order} with height {vkey(hs[0].data[1]) if hs else '?'} -> g-function heights {vkey(hv)[:40] if hv is not None else '?'}; "
+                          f"the requested height must be written first and be the height of both the g-function and the GHE's borehole")
 
 
 # ---------------------------------------------------------------------------
@@ -125,6 +264,23 @@ def _bisection1d(prog: Program, res: Result, lb: int):
                                   f"the field returned under a height bracket is {vkey(ret.items[1])[:60]} but the bracket was established on {k[:160]}", path=describe_trail(st)[-4:])
     res.count("bisection1d_return_paths", n_ret)
     res.floor("bisection1d_return_paths", 6)
+    # every recorded excess is the excess of the field at that index at max height
+    bad = {}
+    n_st = 0
+    for p in paths:
+        for e in p.events:
+            if e.kind == "CT_STORE":
+                n_st += 1
+                key, val, idx = e.data
+                want = sc.exc(Rat.atom(f"self.coordinates_domain[{idx.key()}]"), sc.MAXH) if idx is not None else None
+                if want is None or not (isinstance(val, Rat) and val.equals(want)):
+                    bad.setdefault(e.node.lineno, (e, val, idx))
+    res.count("recorded_excess_stores", n_st)
+    res.floor("recorded_excess_stores", 50)
+    res.ob("R01.1", f"calculated_temperatures[k] is always the excess of field k at max_height ({n_st} stores on all paths)", not bad, prog.loc(fi, fi.node))
+    for ln, (e, val, idx) in bad.items():
+        res.violation("R01.1", f"recorded-excess|{norm_stmt(e.node)[:80]}", prog.loc(fi, e.node), q,
+                      f"'{norm_stmt(e.node)[:90]}' records {vkey(val)[:100]} under index {vkey(idx)[:40]}: the final pick reads this table as 'excess of field k at max height'")
 
 
 # ---------------------------------------------------------------------------
@@ -583,6 +739,16 @@ VARIANTS = [
             [(SR, "                    if t_e <= 0.0:\n                        # highT_e = T_e\n                        nbh_max = nbh", "                    if t_e >= 0.0:\n                        # highT_e = T_e\n                        nbh_max = nbh")], "R01.1"),
     Variant("row-wise removal starts from the dense field instead of the sparse one that was shown feasible", "break",
             [(SR, "                selected_coordinates = starting_field\n                selected_specifier = lower_field_specifier", "                selected_coordinates = upper_field[1:]\n                selected_specifier = lower_field_specifier")], "R01.1"),
+    Variant("left end recorded with its excess at MIN height", "break",
+            [(SR, "        self.calculated_temperatures[x_l_idx] = t_0_upper", "        self.calculated_temperatures[x_l_idx] = t_0_lower")], "R01.1"),
+    Variant("check_bracket accepts equal signs", "break", [(UT, "    return sign_x_l < 0 < sign_x_r or sign_x_r < 0 < sign_x_l", "    return sign_x_l <= 0 < sign_x_r or sign_x_r < 0 < sign_x_l or sign_x_l == sign_x_r")], "R01.6"),
+    Variant("calculate_excess no longer re-initialises the GHE", "break",
+            [(SR, "    def calculate_excess(self, coordinates, h, field_specifier=\"N/A\"):\n        self.initialize_ghe(coordinates, h, field_specifier=field_specifier)\n        # Simulate after computing just one g-function\n        max_hp_eft, min_hp_eft = self.ghe.simulate(method=self.method)\n        t_excess = self.ghe.cost(max_hp_eft, min_hp_eft)\n        self.searchTracker.append([field_specifier, t_excess, max_hp_eft, min_hp_eft])\n\n        return t_excess\n\n    def search(self):\n        x_l_idx = 0",
+              "    def calculate_excess(self, coordinates, h, field_specifier=\"N/A\"):\n        if len(coordinates) != self.ghe.nbh:\n            self.initialize_ghe(coordinates, h, field_specifier=field_specifier)\n        # Simulate after computing just one g-function\n        max_hp_eft, min_hp_eft = self.ghe.simulate(method=self.method)\n        t_excess = self.ghe.cost(max_hp_eft, min_hp_eft)\n        self.searchTracker.append([field_specifier, t_excess, max_hp_eft, min_hp_eft])\n\n        return t_excess\n\n    def search(self):\n        x_l_idx = 0")], "R01.7"),
+    Variant("initialize_ghe computes the g-function before it sets the height", "break",
+            [(SR, "        v_flow_system, m_flow_borehole = self.retrieve_flow(coordinates, self.ghe.bhe.fluid.rho)\n\n        self.ghe.bhe.b.H = h\n        borehole = self.ghe.bhe.b", "        v_flow_system, m_flow_borehole = self.retrieve_flow(coordinates, self.ghe.bhe.fluid.rho)\n\n        borehole = self.ghe.bhe.b"),
+             (SR, "        # Initialize the GHE object\n        self.ghe = GHE(\n            v_flow_system,\n            b,\n            self.bhe_type,\n            fluid,\n            borehole,\n            pipe,\n            grout,\n            soil,\n            g_function,\n            self.sim_params,\n            self.hourly_extraction_ground_loads,\n            field_type=self.field_type,",
+              "        borehole.H = h\n        # Initialize the GHE object\n        self.ghe = GHE(\n            v_flow_system,\n            b,\n            self.bhe_type,\n            fluid,\n            borehole,\n            pipe,\n            grout,\n            soil,\n            g_function,\n            self.sim_params,\n            self.hourly_extraction_ground_loads,\n            field_type=self.field_type,")], "R01.7"),
     Variant("excess_of_interest renamed", "benign",
             [(SR, "        excess_of_interest = max(negative_excess_values)\n\n        # but some conditions", "        excess_of_interest = max(negative_excess_values)\n        chosen_excess = excess_of_interest\n        excess_of_interest = chosen_excess\n\n        # but some conditions")]),
     Variant("max_height hoisted into a local in search()", "benign",
